@@ -57,6 +57,7 @@ pub fn parse_integer(
 fn parse_integer_with_error(signed: bool, input: TokenStream) -> Result<(Sign, UBig), ParseError> {
     let mut val: Option<_> = None;
     let mut neg = false;
+    let mut sign_marked = false;
     let mut base_marked = false;
     let mut base: Option<_> = None;
 
@@ -82,19 +83,16 @@ fn parse_integer_with_error(signed: bool, input: TokenStream) -> Result<(Sign, U
                 }
             }
             TokenTree::Punct(punct) => {
-                if val.is_none() && punct.as_char() == '-' {
-                    if signed {
-                        neg = true;
-                    } else {
-                        return Err(ParseError::InvalidDigit);
-                    }
-                } else if val.is_none() && punct.as_char() == '+' {
-                    if !signed {
-                        return Err(ParseError::InvalidDigit);
-                    }
-                } else {
+                // at most one sign, in front of the digits, and only for signed integers
+                if val.is_some() || sign_marked || !signed {
                     return Err(ParseError::InvalidDigit);
                 }
+                match punct.as_char() {
+                    '-' => neg = true,
+                    '+' => {}
+                    _ => return Err(ParseError::InvalidDigit),
+                }
+                sign_marked = true;
             }
             _ => return Err(ParseError::InvalidDigit),
         }
